@@ -715,6 +715,14 @@ pub(crate) fn convert_group(
     };
     collect_children(cache, &mut g);
 
+    // An element that produced no content, like a zero-sized shape, must not leave
+    // an empty group behind. Only `g` and `use` elements are allowed to be empty.
+    // A filter can produce content on its own, therefore filtered elements are checked later.
+    let is_empty = g.children.is_empty() && !is_g_or_use && !force;
+    if is_empty && !node.has_attribute(AId::Filter) {
+        return None;
+    }
+
     // We need to know group's bounding box before converting
     // clipPaths, masks and filters.
     let object_bbox = g.calculate_object_bbox();
@@ -781,6 +789,10 @@ pub(crate) fn convert_group(
 
     if !required {
         parent.children.append(&mut g.children);
+        return None;
+    }
+
+    if is_empty && filters.is_empty() {
         return None;
     }
 
